@@ -108,7 +108,7 @@ def _post(cls, name, self, pre, preargs, opts_before, raised):
                 _trip('S3', f'{tname}.{name}', f'len={n} len(bin)={nb}')
     if raised is not None:
         _ev('S4')
-        if _opts() != opts_before:
+        if _opts() != opts_before and not _state.get('harness_moves_options'):
             _trip('S4', f'{tname}.{name}', f'{opts_before} -> {_opts()}')
         if isinstance(raised, INTERNAL) and not isinstance(raised, bitstring.Error):
             _trip('S5', f'{type(raised).__name__}@{origin(raised)}', f'{tname}.{name}: {str(raised)[:120]}')
